@@ -9,13 +9,16 @@ VARIABLES case, phase, res
 mcvars == <<case, phase, res>>
 
 (* all binary trees with exactly n leaves, leaves numbered left to right from `from` *)
-RECURSIVE Trees(_, _)
-Trees(n, from) ==
-  IF n = 1 THEN {Leaf(w, from) : w \in Ws}
-  ELSE UNION {{Pair(a, b) : a \in Trees(k, from), b \in Trees(n - k, from + k)} : k \in 1..(n - 1)}
+RECURSIVE TreesF(_, _, _)
+TreesF(n, from, fs) ==
+  IF n = 1 THEN {LeafF(w, from, f) : w \in Ws, f \in fs}
+  ELSE UNION {{Pair(a, b) : a \in TreesF(k, from, fs), b \in TreesF(n - k, from + k, fs)} : k \in 1..(n - 1)}
+Trees(n, from) == TreesF(n, from, {FALSE})
+(* trees of up to 3 leaves in which any member may FAIL when it is delegated to *)
+FailingTrees == UNION {TreesF(n, 1, BOOLEAN) : n \in 1..3}
 
 Cases ==
-       {[op |-> "select", tree |-> t] : t \in UNION {Trees(n, 1) : n \in 1..MaxLeaves}}
+       {[op |-> "select", tree |-> t] : t \in (UNION {Trees(n, 1) : n \in 1..MaxLeaves}) \cup FailingTrees}
   \cup {[op |-> "dyn", ws |-> ws] : ws \in UNION {[1..n -> Ws] : n \in 1..MaxLeaves}}
   \cup {[op |-> "build", ws |-> ws] : ws \in UNION {[1..n -> BuildWs] : n \in 1..BuildLen}}
 
@@ -31,8 +34,9 @@ Post == phase = "post"
 
 (* exactly one member, never one of weight zero *)
 ExactlyOneMember ==
-  (Post /\ case.op = "select" /\ res.k = "chosen") =>
-     LET lf == LeafAt(case.tree, res.path) IN lf.t = "leaf" /\ lf.m = res.m /\ lf.w > 0
+  (Post /\ case.op = "select" /\ res.k \in {"chosen", "member_error"}) =>
+     LET lf == LeafAt(case.tree, res.path) IN
+     lf.t = "leaf" /\ lf.m = res.m /\ lf.w > 0 /\ (res.k = "member_error" <=> lf.f)
 ZeroNeverUsed ==
   (Post /\ case.op = "dyn" /\ res.k = "chosen_dyn") => case.ws[res.j] > 0
 AllZeroIsError ==
